@@ -111,6 +111,8 @@ structure State where
   -- signature manager (..08) and vote ledgers of the cross chain manager (..03)
   sigs : List (Bytes × (Bool × List (Addr × Bytes))) := []
   votes : List (Bytes × (Bool × List Addr)) := []
+  /-- cross chain manager: executed source transactions (`doneTx ‖ chain id ‖ cross chain id`) -/
+  doneTx : List (Nat × Bytes) := []
   /-- node-local cache of the transaction pool actor (txnpool/proc permittedAddrMap): addresses that may submit
   transactions besides the registered relayers; filled from the pool of the current view, never pruned -/
   permitted : List Addr := []
@@ -408,6 +410,10 @@ inductive Op
   | svapprrm (signers : List Addr) (id : Nat) (addr : Addr)
   | vote (id : Bytes) (addr : Addr)
   | sig (signers : List Addr) (addr : Addr) (subject sig : Bytes)
+  /-- consensus_vote.VoteHandler.MakeDepositProposal: a vote of relayer `relayer` (a validator) for the source
+  transaction with vote id `id` (SHA-256 of source chain id, height and payload: an oracle value of the op line);
+  `ccid` is the cross chain id in the payload (`none`: the payload does not decode) -/
+  | deposit (signers : List Addr) (relayer : Addr) (chain : Nat) (id : Bytes) (ccid : Option Bytes)
   /-- txnpool/proc: is a transaction signed by `signers` admitted? -/
   | submit (signers : List Addr)
   /-- txnpool/proc updatePermittedAddrMap (`operator`: multi-signature address of all pool members, an oracle value;
@@ -619,6 +625,25 @@ def plan (s : State) : Op → M Plan
         | none => .error .err
         | some (info, released) =>
           .ok (.done { st := { s with votes := alPut s.votes id info }, ret := if released then "1" else "0", events := [] })
+  -- VoteHandler.MakeDepositProposal: witness, CheckVotes, and on release the payload must decode and must not be done
+  | .deposit sg relayer chain id ccid =>
+    if !witness sg relayer then .error .err else
+    if ((alGet s.votes id).getD (false, [])).1 then .ok (.done { st := s, ret := "0", events := [] }) else
+    match curPool s with
+    | none => .error .err
+    | some (_, pool) =>
+      match consAddrs s pool with
+      | none => .error .err
+      | some cons =>
+        match voteStep ((alGet s.votes id).getD (false, [])) cons relayer with
+        | none => .error .err
+        | some (info, false) => .ok (.done { st := { s with votes := alPut s.votes id info }, ret := "0", events := [] })
+        | some (info, true) =>
+          match ccid with
+          | none => .error .err
+          | some c =>
+            if s.doneTx.contains (chain, c) then .error .err else
+            .ok (.done { st := { s with votes := alPut s.votes id info, doneTx := s.doneTx ++ [(chain, c)] }, ret := "1", events := [] })
   -- signature_manager.AddSignature / CheckSigns
   | .sig sg a subject sig =>
     if !witness sg a then .error .err else
